@@ -365,6 +365,9 @@ def run(world, tier, info, only=None):
 
     _chain_gating(ck, w)
     _representative(ck, w)
+    _condition_stack(ck, w)
+    _compatible_paths(ck, w)
+    _connect_check_independent_of_direction(ck, w)
     # ---------------- R5 must-call table ----------------------------------------------------------------------
     for p, why in sorted(MUST_CALL.items()):
         if p not in w.fns:
@@ -583,6 +586,159 @@ def _representative(ck, w):
               "an expression becomes the representative of a callee clock domain only where its clock_domain was compared with ClockDomain::None and differs" if ok else
               "an expression whose clock domain may be None (a constant) becomes the representative of a callee clock domain: None is compatible "
               "with everything, so every later connection to that domain is accepted")
+
+
+# ---------------- R6b the condition stack only grows inside with_condition_domain(s) and is cut back to its old length ------------------
+def _condition_stack(ck, w):
+    CX = "veryl_analyzer::conv::context::Context::"
+    n = 0
+    for p, sm in sorted(w.fns.items()):
+        if not p.startswith(CX + "with_condition_domain") or sm.get("alias_of") or "{" in p[len(CX):]:
+            continue
+        n += 1
+        g = Fn(w.mir(p))
+        bad = []
+        grow = shrink = 0
+        for bi, t in g.calls():
+            c = t.get("callee") or ""
+            if not t["args"] or t["args"][0][0] == "k":
+                continue
+            try:
+                r, pth = flow.access_path(g, t["args"][0])
+            except Exception:
+                continue
+            on_stack = any(flow.access_path(g, a)[1][-1:] == ("condition_domains",) for a in t["args"] if a[0] != "k")
+            if not on_stack:
+                continue
+            last = c.split("::")[-1]
+            if last in ("push", "extend_from_slice", "extend"):
+                grow += 1
+            elif last in ("truncate", "pop"):
+                shrink += 1
+            elif last in ("len", "deref", "deref_mut", "as_slice"):
+                pass
+            else:
+                bad.append("%s at line %s" % (last, t["l"]))
+        for bi, si, st in flow.field_writes(g, r"conv::context::Context$", "condition_domains"):
+            bad.append("the stack is assigned as a whole at line %s" % st[3])
+        ok = not bad and grow >= 1 and shrink >= 1
+        ck.ob("R6", "condition-stack-discipline:" + p.split("::")[-1].split("<")[0], ok, site(sm),
+              "the conditions are pushed on top of the enclosing ones and cut back afterwards" if ok else
+              "the condition stack is %s: while the branch is lowered the conditions of the enclosing statements are not on it, so a foreign-domain "
+              "condition further out is not checked" % (bad or "not grown and shrunk symmetrically (grow %d, shrink %d)" % (grow, shrink)))
+    ck.floor("R6", "with_condition_domain(s) helpers", n, 2)
+
+
+# ---------------- R2c compatible() says true only for None operands, equal ids, or two id-less domains --------------------------------
+def _compatible_paths(ck, w):
+    P = CD + "::compatible"
+    if P not in w.fns:
+        ck.missing("R2", P)
+        return
+    sm = w.fns[P]
+    g = Fn(w.mir(P))
+    try:
+        paths = flow.enumerate_paths(g, 0, g.returns(), limit=5000)
+    except OverflowError:
+        ck.ob("R2", "compatible/true-only-when-same-or-none", None, site(sm), "too many paths")
+        return
+    bad = []
+    n_true = 0
+    for path in paths:
+        blocks = [b for b, _ in path] + ([path[-1][1]] if path else [0])
+        ret_const = None
+        for b in blocks:
+            for st in g.blocks[b]["s"]:
+                if st[0] == "=" and st[1] == [0, []]:
+                    rv = st[2]
+                    ret_const = rv[1][1].get("int") if rv[0] == "use" and rv[1][0] == "k" and isinstance(rv[1][1], dict) else "expr"
+        if ret_const != "1":
+            continue
+        n_true += 1
+        fx = flow.path_facts(g, path)
+        if flow.contradictory(fx):
+            continue
+        txt = repr(fx)
+        none_operand = any(x[0] == "isvariant" and x[2] == "None" and "domain_id" not in repr(x[1]) for x in fx)
+        ids = [x for x in fx if x[0] == "isvariant" and "domain_id" in repr(x[1])]
+        some = [x for x in ids if x[2] == "Some"]
+        none = [x for x in ids if x[2] == "None"]
+        if none_operand:
+            continue
+        if len(none) >= 2 and not some:
+            continue
+        bad.append("Some/None ids: %d/%d" % (len(some), len(none)))
+    ck.ob("R2", "compatible/true-only-when-same-or-none", n_true > 0 and not bad, site(sm),
+          "compatible() returns the constant true only where an operand is ClockDomain::None or neither domain has an id (%d such paths); with two "
+          "ids it returns their comparison" % n_true if n_true and not bad else
+          "compatible() returns true on a path where one domain has an id and the other has none (%s): an implicit, not yet inferred domain is "
+          "accepted against any concrete one" % bad[:2])
+
+
+# ---------------- R7b whether a connection is checked does not depend on the port's direction -----------------------------------------------
+def _connect_check_independent_of_direction(ck, w):
+    import taint
+    p = [q for q in MUST_CALL if "InstDeclaration" in q][0]
+    if p not in w.fns:
+        return
+    sm = w.fns[p]
+    g = Fn(w.mir(p))
+    checks = [bi for bi, t in g.calls("^" + re.escape(K) + "$")]
+    tn = taint.Taint(g, seed_place=lambda pl: any(isinstance(q, list) and q[0] == "f" and q[2] == "kind" and (q[3] or "").endswith("ir::variable::Variable") for q in pl[1]),
+                     pure=re.compile(r"PartialEq.*::(eq|ne)$"))
+    dep = []
+    # loop heads = targets of DFS back edges (covers every loop form, not only the `for` loops flow.loops_over recognises)
+    backs, state, stack = [], {0: 1}, [(0, iter(g.succ[0]))]
+    while stack:
+        n, it = stack[-1]
+        for m in it:
+            if g.blocks[m].get("cu"):
+                continue
+            if state.get(m) == 1:
+                backs.append((n, m))
+            elif m not in state:
+                state[m] = 1
+                stack.append((m, iter(g.succ[m])))
+                break
+        else:
+            state[n] = 2
+            stack.pop()
+    for snk in tn.sinks():
+        if snk[0] != "switch":
+            continue
+        b = _matches_join(g, snk[1])
+        # b is inside the natural loop of back edge n->h iff b reaches n without passing h
+        heads = sorted({h for n, h in backs if b != h and (n == b or n in g.reach_from(b, avoid=[h]))})
+        succ = [x for x in g.succ[b] if not g.blocks[x].get("cu")]
+        reach = [g.reach_from(x, avoid=heads + [b]) for x in succ]
+        hits = [any(cb in r for cb in checks) for r in reach]
+        if any(hits) and not all(hits):
+            dep.append(g.blocks[b]["t"].get("l"))
+    ck.ob("R7", "inst-connect/check-independent-of-port-direction", bool(checks) and not dep, site(sm),
+          "the clock-domain check of a connection is not control dependent on the port's kind" if checks and not dep else
+          "whether a connection is checked depends on the callee port's kind (branch at line %s): connections of the other kinds (inout, ...) cross "
+          "domains unchecked" % sorted(set(dep)))
+
+
+def _matches_join(g, b):
+    """`matches!(x, A | B)` lowers to a switch whose arms only set a bool and join at a switch on that bool: the decision is the join"""
+    ss = [x for x in g.succ[b] if not g.blocks[x].get("cu")]
+    if len(ss) < 2:
+        return b
+    tgt, loc = set(), set()
+    for x in ss:
+        st, t = g.blocks[x].get("s") or [], g.blocks[x]["t"]
+        if t.get("t") != "goto" or len(st) != 1 or st[0][0] != "=" or st[0][2][0] != "use" or st[0][2][1][0] != "k" or st[0][2][1][1].get("ty") != "bool":
+            return b
+        tgt.add(t["to"])
+        loc.add(st[0][1][0])
+    if len(tgt) != 1 or len(loc) != 1:
+        return b
+    j = tgt.pop()
+    jt = g.blocks[j]["t"]
+    if jt.get("t") == "sw" and jt["on"][0] in ("m", "c") and jt["on"][1][0] == loc.pop():
+        return j
+    return b
 
 
 def _short(p):
